@@ -13,7 +13,11 @@ VARIABLES tid, verdict
 tvars == <<tid, verdict>>
 
 CfgOf(x) == [session |-> x.C.session, svc |-> x.C.svc, data |-> x.C.data, check |-> x.C.check]
-EcuOf(x) == [tab |-> ToSet(x.E.tab), dflt |-> ToSet(x.E.dflt)]
+EcuOf(x) ==
+  LET tab == ToSet(x.E.tab)
+      dfl == ToSet(x.E.dflt)
+  IN [fn   |-> [k \in {<<y[1], y[2]>> : y \in tab} |-> (CHOOSE y \in tab : y[1] = k[1] /\ y[2] = k[2])[3]],
+      dflt |-> [s \in {y[1] : y \in dfl} |-> (CHOOSE y \in dfl : y[1] = s)[2]]]
 
 TInit == tid \in 1..Len(T) /\ verdict = "?"
 TNext == /\ verdict = "?"
